@@ -797,6 +797,47 @@ pub fn run_case(w: &World, case: &Case, seed: u64, out: &mut Out) {
                                 let ok = Descriptor::<DescriptorPublicKey>::from_str(&at_s)
                                     .map(|x| format!("{:#}", x) == format!("{:#}", a))
                                     .unwrap_or(false);
+                                // the definite descriptor computes its scripts through
+                                // `DefiniteDescriptorKey: ToPublicKey`; they must be those of the derived
+                                // descriptor (judged against the oracle above).  Seeded change C16-9.
+                                let def_obs = catch_unwind(AssertUnwindSafe(|| {
+                                    (
+                                        a.script_pubkey(),
+                                        a.explicit_script().ok(),
+                                        a.script_code().ok(),
+                                        a.unsigned_script_sig(),
+                                        a.address(bitcoin::Network::Bitcoin).ok().map(|x| x.to_string()),
+                                    )
+                                }));
+                                let der_obs = catch_unwind(AssertUnwindSafe(|| {
+                                    (
+                                        dd.script_pubkey(),
+                                        dd.explicit_script().ok(),
+                                        dd.script_code().ok(),
+                                        dd.unsigned_script_sig(),
+                                        dd.address(bitcoin::Network::Bitcoin).ok().map(|x| x.to_string()),
+                                    )
+                                }));
+                                match (def_obs, der_obs) {
+                                    (Ok(x), Ok(y)) if x == y => {}
+                                    (Ok(x), Ok(y)) => out.violation(
+                                        "definite-script-differs",
+                                        case,
+                                        &sj,
+                                        Some(i),
+                                        &format!(
+                                            "the definite descriptor {:#} has script_pubkey {} / explicit script {:?}; its derived descriptor {:#} has {} / {:?}",
+                                            a,
+                                            hex(x.0.as_bytes()),
+                                            x.1.as_ref().map(|s| hex(s.as_bytes())),
+                                            dd,
+                                            hex(y.0.as_bytes()),
+                                            y.1.as_ref().map(|s| hex(s.as_bytes()))
+                                        ),
+                                        "",
+                                    ),
+                                    _ => out.violation("script-panic", case, &sj, Some(i), "script functions of the definite descriptor panic", ""),
+                                }
                                 if !ok {
                                     out.violation(
                                         "at-index-text",
